@@ -380,13 +380,21 @@ func c04(c *core.Check) {
 			if !ok {
 				return true
 			}
-			inner, ok := core.Unparen(ix.X).(*ast.IndexExpr)
-			if !ok || !strings.HasSuffix(core.PathOf(inner.X), ".matches") {
+			bt := vm.F.Info().TypeOf(ix.X)
+			if bt == nil || bt.String() != "[]string" {
 				return true
 			}
-			key := fmt.Sprintf("%s %s", op, exprStr(ix))
-			want1 := "len(" + strings.ReplaceAll(exprStr(inner), " ", "") + ")<=" + strings.ReplaceAll(exprStr(ix.Index), " ", "")
-			want2 := strings.ReplaceAll(exprStr(ix.Index), " ", "") + ">=len(" + strings.ReplaceAll(exprStr(inner), " ", "") + ")"
+			if tv := vm.F.Info().Types[ix.Index]; tv.Value != nil {
+				return true // constant index: not a capture-group reference
+			}
+			if !strings.Contains(exprStr(ix.X), "matches") && !derivedFromMatches(vm, vc, ix.X) {
+				return true
+			}
+			key := fmt.Sprintf("%s capture lookup [%s]", op, exprStr(ix.Index))
+			base := strings.ReplaceAll(exprStr(ix.X), " ", "")
+			idx := strings.ReplaceAll(exprStr(ix.Index), " ", "")
+			want1 := "len(" + base + ")<=" + idx
+			want2 := idx + ">=len(" + base + ")"
 			guarded := false
 			vm.inspectCase(vc, func(m ast.Node) bool {
 				is, ok := m.(*ast.IfStmt)
@@ -402,7 +410,6 @@ func c04(c *core.Check) {
 				return true
 			})
 			if !guarded && op == "Strptime" {
-				// inside `case int:` of the type switch on the second popped value: dead if no emit site can feed an int there
 				c.Note("C04-R5", key, pos(c, ix), "unguarded, but only reached when the value under the layout is a Go int: the code generator emits strptime's arguments as string expressions (checked: no Push of an int directly precedes a Strptime emit)")
 				for _, es := range emits {
 					if has(es.Ops, "Strptime") && len(es.Ops) == 1 && es.PrevPush != nil && has(es.PrevPush.Ops, "Push") && es.PrevPush.OpndType == "int" {
@@ -576,4 +583,27 @@ func builtinSignatures(c *core.Check) map[string][]string {
 		})
 	}
 	return out
+}
+
+// derivedFromMatches reports whether e is a local variable defined from an index of the thread's matches map within the case.
+func derivedFromMatches(vm *vmTable, vc *vmCase, e ast.Expr) bool {
+	obj := identObj(vm.F.Info(), e)
+	if obj == nil {
+		return false
+	}
+	found := false
+	vm.inspectCase(vc, func(n ast.Node) bool {
+		if as, ok := n.(*ast.AssignStmt); ok {
+			for i, l := range as.Lhs {
+				if identObj(vm.F.Info(), l) == obj && len(as.Rhs) >= 1 {
+					r := as.Rhs[min(i, len(as.Rhs)-1)]
+					if strings.Contains(exprStr(r), "matches[") {
+						found = true
+					}
+				}
+			}
+		}
+		return true
+	})
+	return found
 }
